@@ -347,6 +347,11 @@ pub fn run(cfg: &Cfg) -> Stats {
                     for finish in ["", "m", "q"] {
                         for abort in ["", "\x1b", "\x18", "\x1a", "\x1b\x1b"] {
                             for intro in ["\x1b[", "\x1bP"] {
+                                // an SGR sequence with more values than the parser stores that *is* dispatched: whether
+                                // a terminal drops it or applies what fits is not settled by the statement
+                                if intro == "\x1b[" && finish == "m" && nparams > 32 {
+                                    continue;
+                                }
                                 let mut d = b"a".to_vec();
                                 d.extend_from_slice(intro.as_bytes());
                                 for i in 0..nparams {
